@@ -32,4 +32,38 @@ theorem ARINC_items_le (t : Packet) (buf : Bytes) (h : (Packet.unpack t buf).2 =
   · revert h
     simp [Packet.unpack, structUnpackFrom, PKT_unpack_fmt0, Fmt.size, codesSize, Code.size, h4]
 
+
+/-- [review] the `for` loop of ARINC429DataPacket.unpack has no fuel in the model, so the explicit count IS the
+    C08 content: an accepted buffer yields exactly `(|buf| − 4) / 8` words, equal to the declared count -/
+theorem ARINC_items_eq (t : Packet) (buf : Bytes) (h : (Packet.unpack t buf).2 = .ok ()) :
+    (Packet.unpack t buf).1.arincwords.length = (buf.length - 4) / 8 ∧
+    (Packet.unpack t buf).1.msgcount = (buf.length - 4) / 8 ∧ 4 ≤ buf.length := by
+  by_cases h4 : 4 ≤ buf.length
+  · obtain ⟨ws, hws, hl, _⟩ := decWords_ok buf ((buf.length - 4) / 8) 0 (by omega)
+    revert h
+    simp only [Packet.unpack, structUnpackFrom, PKT_unpack_fmt0, Fmt.size, codesSize, Code.size, Nat.zero_add,
+      Nat.add_zero, h4, if_true, unpackCodes, hws]
+    split
+    · simp
+    · rename_i hc
+      intro _; simp only
+      simp only [ne_eq, Decidable.not_not] at hc
+      exact ⟨hl, by rw [hc, hl], trivial⟩
+  · revert h
+    simp [Packet.unpack, structUnpackFrom, PKT_unpack_fmt0, Fmt.size, codesSize, Code.size, h4]
+/-- [review] witness: two ARINC-429 words -/
+def wARINC : Bytes := [2, 0, 0, 0,  14, 16, 160, 200, 1, 2, 3, 4,  255, 255, 79, 255, 9, 8, 7, 6]
+example : (Packet.unpack Packet.fresh wARINC).2 = .ok () ∧ (Packet.unpack Packet.fresh wARINC).1.arincwords.length = 2 :=
+  ⟨by rfl, by rfl⟩
+/-! ### review additions (rev1-C08): outcome lists — the element decoders have no loop and no fuel in their models, so
+    `≠ .error .fuel` holds by construction; what C08 says about them is which ordinary exceptions can occur -/
+
+theorem ARINCWord_unpack_outcomes (t : Word) (buf : Bytes) :
+    (Word.unpack t buf).2 = .ok () ∨ (Word.unpack t buf).2 = .error .struct := by
+  simp only [Word.unpack]
+  repeat' split
+  all_goals first
+    | (simp; done)
+    | (rename_i e h; have := structUnpackFrom_error _ _ _ _ h; subst this; simp)
+
 end Acra.Props.C08
